@@ -290,7 +290,7 @@ def rule_majority(ctx, rule="R27c"):
         if not b:
             continue
         if meth == "vote_received":
-            eff = [bi for bb_, bi, kind, var in state_writes(fa) if bb_ is b and kind in ("assign", "construct") and var == "Leader"]
+            eff = [bi for bb_, bi, kind, var in state_writes(fa) if bb_.path == b.path and kind in ("assign", "construct") and var == "Leader"]
         else:
             eff = [i for i, t in cfg.calls(b) if common.norm(cfg.callee(t) or "") == CL + "election"]
         if not eff:
@@ -322,7 +322,7 @@ def rule_grant_dominated(ctx, rule, validators, fn="vote_request", effects=("vot
     # error returns produced by `?` are not grants; a direct Err(..) aggregate is not one either
     grant = {"ok": okb}
     if "voted" in effects:
-        grant["voted"] = [bi for bb_, bi, kind, var in state_writes(fa) if bb_ is b and kind == "assign" and var == "Voted"]
+        grant["voted"] = [bi for bb_, bi, kind, var in state_writes(fa) if bb_.path == b.path and kind == "assign" and var == "Voted"]
     if "voted" in effects:
         vals = sorted({val for bi, f_, val in self_writes(fa, b, depth=2) if f_ == "state"})
         ctx.ob(rule, "%s:voted-term" % fn, vals == ["ClusterState::Voted{request.term}"],
@@ -554,7 +554,7 @@ def rule_votes_of_this_election(ctx, rule="R27f"):
     b = ctx.anchor(rule, CL + "vote_received")
     if not b:
         return
-    eff = [bi for bb_, bi, kind, var in state_writes(fa) if bb_ is b and kind == "assign" and var == "Leader"]
+    eff = [bi for bb_, bi, kind, var in state_writes(fa) if bb_.path == b.path and kind == "assign" and var == "Leader"]
     permit = edges_implying(cmp_edges(fa, b), "request.term", "self.term", "==")
     inside = bool(eff and permit) and cfg.find_path(b, [0], eff, removed_edges=[e for d, e in permit]) is None
     sites = common.callers_of(fa, CL + "vote_received", "agdb_server")
